@@ -55,7 +55,8 @@ def infer_one_redirection(url):
             # NOTE: the keys are matched whatever their case, "Q" is "q"
             if obvious_redirect_match.group(1).lower() == "q":
                 # NOTE: "q" need not be the first item of the query
-                if not GOOGLE_URL_RE.search(searched) and "/redirect" not in url:
+                # NOTE: nor can the text of a fragment make it a google or youtube one
+                if not GOOGLE_URL_RE.search(searched) and "/redirect" not in searched:
                     return url
 
             potential_target = unquote(obvious_redirect_match.group(2))
@@ -87,7 +88,7 @@ def infer_one_redirection(url):
                     pass
 
             # Idiotic youtube redirections
-            elif YOUTUBE_REDIRECT_RE.search(url):
+            elif YOUTUBE_REDIRECT_RE.search(searched):
                 target = "https://" + potential_target
 
     # NOTE: an inferred target is always a strict part of the url, hence shorter.
